@@ -55,6 +55,31 @@ func (w *World) checkPanics() {
 
 var profileAfterMain = map[string]func(w *World){
 	"C06": afterC06,
+	"C02": afterC02,
+}
+
+// afterC02: "a quorum call ends ... on context end" - also while a targeted node's sender is busy
+// (dialling a node that is down, with a blocking dial): after a fair grace phase in which nothing
+// that is stuck gets unstuck (no heal, no restart, no gate opens; the clock runs), every quorum /
+// async call whose context has ended has returned and completed. Then the usual settle and checks.
+func afterC02(w *World) {
+	w.grace("grace", false, 10*time.Second, 8000, nil)
+	for _, c := range w.calls[1:] {
+		if c.InvokeSeq == 0 || c.CtxEndSeq == 0 || (c.Info.Kind != "qc" && c.Info.Kind != "async") || c.Panic != "" {
+			continue
+		}
+		done := c.ReturnSeq != 0 && c.DoneSeq != 0
+		w.rule("C02.ends-on-context-end", done)
+		if !done {
+			where := "its future has not completed"
+			if c.ReturnSeq == 0 {
+				where = "it is still inside the stub invocation"
+			}
+			w.violate("C02", "not-ended-by-context", "", "call t%d (%s, ctx %s): %s 10 s (simulated) after its context ended at step %d, although nothing but its own context is needed for it to end: %s", c.Tok, c.Stub, c.CtxKind, where, c.CtxEndStep, w.whereIs(c))
+		}
+	}
+	w.defaultSettle()
+	w.checkCore()
 }
 
 // afterC06: one-way calls return without waiting for any handler: after a fair grace phase in
@@ -232,7 +257,38 @@ func (w *World) checkCore() {
 
 // ---- C01 / C05: quorum function invocations and returned value
 
+// checkRPCResult (C05): the reply an RPC returns was produced by the targeted node's handler for
+// this very call.
+func (w *World) checkRPCResult(c *Call) {
+	if c.Info.Kind != "rpc" || c.DoneSeq == 0 || c.Err != nil || c.ReqVal == "" || len(c.Targets) != 1 || c.IsProbe {
+		return
+	}
+	r, ok := c.Ret.(*zsvc.Response)
+	if !ok || r == nil {
+		return
+	}
+	si := c.Targets[0]
+	st := r.GetResult()
+	sp := parseStamp(st)
+	good := st > 0 && sp.Tok == c.Tok && sp.Srv == si
+	if good {
+		good = false
+		for _, h := range w.handlersFor(c, si) {
+			for _, hs := range h.Stamps {
+				if hs == st {
+					good = true
+				}
+			}
+		}
+	}
+	w.rule("C05.reply-attributed", good)
+	if !good {
+		w.violate("C05", "reply-misrouted", "rpc", "call t%d (%s) to server %d returned a reply with stamp {%v}, which that node's handler did not produce for this call (token/server mismatch)", c.Tok, c.Stub, si, sp)
+	}
+}
+
 func (w *World) checkCallQF(c *Call) {
+	w.checkRPCResult(c)
 	if c.Info.Kind != "qc" && c.Info.Kind != "async" {
 		return
 	}
